@@ -41,6 +41,15 @@ class Impl:
         self.slide = self.prs.slides.add_slide(layout)
         other = self.prs.slides.add_slide(layout)
         self.foreign = other.shapes.add_table(2, 2, 0, 0, 1000, 1000).table
+        # a second table on the SAME slide, before the table under test in document order, with text in its cells: it must
+        # stay as it is whatever is done to the table under test, and a merge reaching into it is refused like any other
+        from lxml import etree
+        self.neighbour_gf = self.slide.shapes.add_table(2, 3, 0, 0, 3000, 2000)
+        for r in range(2):
+            for c in range(3):
+                self.neighbour_gf.table.cell(r, c).text = "n%d%d" % (r, c)
+        self.neighbour = self.neighbour_gf.table
+        self.neighbour_xml = etree.tostring(self.neighbour_gf._element)
 
     def observe(self, gf):
         """Structured observation of the real XML + what the public API reports."""
@@ -99,7 +108,7 @@ class Impl:
         if k == "M":
             table.cell(op[1], op[2]).merge(table.cell(op[3], op[4]))
         elif k == "X":
-            table.cell(op[1], op[2]).merge(self.foreign.cell(0, 0))
+            table.cell(op[1], op[2]).merge((self.foreign if (op[1] + op[2]) % 2 == 0 else self.neighbour).cell(0, 0))
         elif k == "S":
             table.cell(op[1], op[2]).split()
         elif k == "H":
@@ -140,6 +149,8 @@ class Impl:
                     stale = True
                 else:
                     after = self.observe(gf)
+                    from lxml import etree
+                    after["neighbour_same"] = etree.tostring(self.neighbour_gf._element) == self.neighbour_xml
                     trace.append((op, oc, obs, after))
                     out.append(oc + "@" + show_obs(after))
                     obs = after
@@ -232,6 +243,8 @@ def step_faults(op, oc, before, after, nrows, ncols):
     k = op[0]
     unchanged = after["xml"] == before["xml"]
     inside = lambda r, c: 0 <= r < nrows and 0 <= c < ncols  # noqa
+    if not after.get("neighbour_same", True):
+        f.append(("other-table-changed", "%r on one table changed ANOTHER table of the same slide (outcome %s)" % (op, oc)))
     if k in ("M", "X", "S") and oc != "ok:" and not unchanged:
         f.append(("refusal-changes-state", "%r raised %s and changed the table" % (op, oc)))
     if k == "X" and inside(op[1], op[2]) and oc != "err:Value":
